@@ -61,6 +61,31 @@ CLAIMS["C05"] = dict(
     design_ref="DESIGN.md section 4, C05",
     technique="static analysis: guarded-return/dominator rules, sign proof, feasibility-provenance dataflow over reaching definitions, interprocedural bound on step length")
 
+CLAIMS["C04"] = dict(
+    category="other",
+    text=("Decides: (D1) augmented_lagrange_solve returns normally only behind norm(total_residual(x)) < alSettings.tol on the "
+          "returned x (the AL tolerance parameter, computed after the sub-step of the same iteration); total_residual is, link "
+          "by link, hstack(grad_x of the augmented Lagrangian, Fischer-Burmeister(constraint, multiplier)) and the FB formula "
+          "has the NCP zero set; (D2) the last writer of .lam on every loop path is solve_sub_step's maximum(.,0) write "
+          "(line-search writes are followed by it or restore a saved copy); (D3) .kappa is written in the solve cone only as "
+          "kappa.at[m].set(penalty_scaling*kappa[m]) on the current penalties, reset_kappa only before the solve; (D4) exact "
+          "algebraic identities: the penalty arms are C0/C1 on the switch l = k*c and the first-order update is -d(penalty)/dc. "
+          "Under the recorded assumptions penalty_scaling >= 1, use_newton_only False. KKT residual values are NOT decided."),
+    design_ref="DESIGN.md section 4, C04",
+    technique="static analysis: guarded-return dominators, who-may-write + last-writer analysis over the call-graph cone, exact rational-function identities (normal forms) for the penalty arms")
+
+CLAIMS["C19"] = dict(
+    category="other",
+    text=("Decides: (D1) the sign chain of the warm start (rhs = slot-k Jacobian-vector product of p_old[k]-p_new[k], operator "
+          "+hessian_vec, CG result returned unnegated, every driver adds it) so the increment is -H^-1 J_p (p_new-p_old); "
+          "(D2) in all four load-step drivers objective.p = p dominates the solve and never precedes the warm start; (D3) "
+          "drivers enter with scaling*x0 (bounds scaled alike) and leave with invScaling*result; ScaledObjective and "
+          "BoundConstrainedObjective evaluate at invScaling*xBar, start at scaling*x0, store invScaling = 1/scaling, and the "
+          "scaled preconditioner is the congruence D^T K D initialised at the unscaled point; (D4) param_index_update table. "
+          "Accuracy of the CG solve and numerical equality of scaled/unscaled solutions are NOT decided."),
+    design_ref="DESIGN.md section 4, C19",
+    technique="static analysis: sign-parity chain over reaching definitions, dominator ordering rules in four sibling drivers, algebraic normal forms for the diagonal change of variables")
+
 NA = {}
 
 
